@@ -118,6 +118,26 @@ func runEncodeWorld(rc *RunCtx) *Outcome {
 		o.violate("C15", "identical-encodings", "message %s: WriteTo %q, MarshalText %q (%v), String %q", desc, full, mt, merr, m.String())
 		return o
 	}
+	// results handed out earlier must stay intact while other messages are marshalled
+	{
+		keep := string(mt)
+		other, _ := genMessage(ch)
+		if ch.Chance(1, 2, "other message has data") {
+			other.AppendData("another message " + strings.Repeat("#", ch.Range(0, 40, "other size")))
+		}
+		ob, _ := other.MarshalText()
+		_ = other.String()
+		if string(mt) != keep || string(mt) != string(full) {
+			o.violate("C15", "encoding-not-stable", "message %s: the bytes returned by MarshalText changed from %q to %q after another message (%q) was marshalled", desc, keep, mt, ob)
+			return o
+		}
+		mt2, _ := m.MarshalText()
+		if !bytes.Equal(mt2, full) {
+			o.violate("C15", "identical-encodings", "message %s: second MarshalText %q differs from WriteTo %q", desc, mt2, full)
+			return o
+		}
+		o.probe("encoding re-checked after marshalling another message")
+	}
 	hasField := m.ID.IsSet() || m.Type.IsSet() || m.Retry.Milliseconds() > 0
 	for _, op := range ops {
 		if (op.Kind == "AppendData" || op.Kind == "AppendComment") && op.Arg != "" {
@@ -215,7 +235,7 @@ func init() {
 		Real:        []string{"sse.Message (AppendData, AppendComment, WriteTo, MarshalText, String, UnmarshalText)", "internal/parser.FieldParser"},
 		Stub:        []string{"io.Writer that accepts a chosen number of bytes of the k-th Write and then fails with a unique error"},
 		Assumptions: []string{"single caller; the simulator dimension is the failing writer only (stated in DESIGN.md)", "IDs without NUL for the round trip, as the property says"},
-		MustProbes:  []string{"round trip checked", "fail points enumerated"},
+		MustProbes:  []string{"round trip checked", "fail points enumerated", "encoding re-checked after marshalling another message"},
 		Run:         runEncodeWorld,
 	}, "C15")
 }
